@@ -65,6 +65,28 @@ class Vec:
     def __rdivmod__(self, o): return (o // self.n, Vec(o % self.n))
     def __matmul__(self, o): return Vec(self.n * 1000 + (o.n if isinstance(o, Vec) else o))
     def __rmatmul__(self, o): return Vec(o * 1000 + self.n)
+import enum
+class Coin:
+    # a student object whose own fields are named like the proxy's internals
+    def __init__(self, value):
+        self.value = value
+        self._actual_value = 'mine'
+        self._actual_sandbox = 'box'
+        self._actual_context_id = -5
+    def __repr__(self): return 'Coin(%r)' % self.value
+    def __eq__(self, o): return isinstance(o, Coin) and repr(o.value) == repr(self.value)
+    def __hash__(self): return hash(('Coin', self.value))
+    def __bool__(self): return True
+    def __len__(self): return 2
+    def __iter__(self): return iter([self.value, 'tails'])
+    def __contains__(self, x): return x == 'heads'
+    def __lt__(self, o): return isinstance(o, Coin) and self.value < o.value
+    def __add__(self, o): return Coin(self.value + (o.value if isinstance(o, Coin) else o))
+    def __radd__(self, o): return Coin(o + self.value)
+    def __int__(self): return 100 + self.value
+class Color(enum.Enum):
+    RED = 0
+    BLUE = 2
 class Plain:
     def __init__(self): self.a = 1
     def __eq__(self, o): return isinstance(o, Plain)
@@ -74,7 +96,7 @@ class Plain:
 VALUES = ['0', '1', '-1', '2', '7', '-3', '10**20', '0.0', '1.5', '-2.5', '3.0', '2.675', "float('inf')", "float('nan')",
           'True', 'False', '(1+2j)', "''", "'a'", "'abc'", "'x y'", "'%d items'", "'3'", "b'ab'",
           '[]', '[1, 2, 3]', "['a', 'b']", '[[1], [2]]', '()', '(1, 2)', "('a', 1)", '{}', "{'a': 1}", "{1: 'x', 2: 'y'}",
-          'set()', '{1, 2}', "{'a'}", 'frozenset({1})', 'range(3)', 'None', 'Vec(3)', 'Vec(0)', 'Plain()', '[1.5, None]',
+          'set()', '{1, 2}', "{'a'}", 'frozenset({1})', 'range(3)', 'None', 'Vec(3)', 'Vec(0)', 'Plain()', 'Coin(5)', 'Coin(0)', 'Color.RED', 'Color.BLUE', '[1.5, None]',
           "'ab' * 3", '255', '1e300', '-0.0']
 
 BINARY = {
@@ -243,6 +265,10 @@ def judge(case):
     printed = buf.getvalue()
     ta = type(ra).__name__
     key = 'C16|op=%s|value=%s|placement=%s' % (op, ta, place)
+    if place == 'right' and arity == 2 and ta == 'Coin' and type(real_of(b_src)).__name__ == 'Coin':
+        # one root cause (known finding): the student's own method receives the proxy and reads other.value, which on a proxy is the
+        # wrapped object itself and not the student's field of that name
+        key = 'C16|student-object-with-value-field|own-method-receives-proxy'
     viol = []
     desc = '%s(%s%s) placement=%s' % (op, a_src, (', ' + b_src) if arity == 2 else '', place)
     if printed:
@@ -264,6 +290,13 @@ def judge(case):
             sym = 'NotImplemented' if got is NotImplemented else 'no-error'
             viol.append(V(key + '|' + sym, '%s fails on the real value (%s: %s) but the proxy returned %r'
                           % (desc, type(real[1]).__name__, real[1], got)))
+    ROOT = 'C16|student-object-with-value-field|own-method-receives-proxy'
+    if key == ROOT:
+        merged = [v for v in viol if not v.cell.startswith(ROOT)]
+        first = next((v for v in viol if v.cell.startswith(ROOT)), None)
+        if first is not None:
+            merged.append(V(ROOT, first.msg))
+        viol = merged
     nontrivial = real[0] == 'ok' or not isinstance(real[1], TypeError)
     classes = ['family=' + ('binary' if op in BINARY else 'container' if op in CONTAINER else 'unary'),
                'placement=' + place, 'real=' + ('ok' if real[0] == 'ok' else type(real[1]).__name__)]
